@@ -243,6 +243,7 @@ func (w *world) deliver(c pb.Chunk, tag deliverTag) {
 		}
 	}
 	if st != nil {
+		st.idle = 0 // an accepted chunk: the stream is not silent
 		if tag.extCorrupt {
 			st.extCorrupt = true
 		}
@@ -439,6 +440,9 @@ func (w *world) tick(n int, big bool) {
 		}
 	}()
 	w.logging = false
+	for _, st := range w.streams {
+		st.idle += n
+	}
 	w.ctx.Ev("tick", uint64(n), b2u(big), b2u(panicked != ""))
 	w.ctx.Count("ev.ticks", int64(n))
 	if panicked != "" {
